@@ -262,6 +262,7 @@ func (c *CqlClientConnection) incomingLoop() {
 	go func() {
 		abort := false
 		for !abort && !c.IsClosed() {
+			verifPoint("client.incomingLoop.iter")
 			if source, err := c.waitForIncomingData(); err != nil {
 				abort = c.reportConnectionFailure(err, true)
 			} else if c.modernLayout {
@@ -283,6 +284,7 @@ func (c *CqlClientConnection) outgoingLoop() {
 	go func() {
 		abort := false
 		for !abort && !c.IsClosed() {
+			verifPoint("client.outgoingLoop.iter")
 			if outgoing, ok := <-c.outgoing; !ok {
 				if !c.IsClosed() {
 					log.Error().Msgf("%v: outgoing frame channel was closed unexpectedly, closing connection", c)
@@ -522,6 +524,7 @@ func (c *CqlClientConnection) Send(f *frame.Frame) (InFlightRequest, error) {
 	if inFlight, err := c.inFlightHandler.onOutgoingFrameEnqueued(f); err != nil {
 		return nil, fmt.Errorf("%v: failed to register in-flight handler for frame: %v: %w", c, f, err)
 	} else {
+		verifPoint("client.send.beforeEnqueue")
 		select {
 		case c.outgoing <- f:
 			log.Debug().Msgf("%v: outgoing frame successfully enqueued: %v", c, f)
@@ -607,8 +610,10 @@ func (c *CqlClientConnection) Close() (err error) {
 		events := c.events
 		c.outgoing = nil
 		c.events = nil
+		verifPoint("client.close.beforeCloseChannels")
 		close(outgoing)
 		close(events)
+		verifPoint("client.close.afterCloseChannels")
 		c.inFlightHandler.close()
 		c.waitGroup.Wait()
 		if err != nil {
